@@ -36,7 +36,7 @@ add("C10", "model_checking", "RetryGraph.tla models the frontier walk of setupRe
 
 add("C06", "model_checking", "History.tla specifies the store at call granularity with the three queries as operators; TLC checks frame conditions, rename-carries-all and retention-only-old as action properties of the design (MCHistory); "
     "operation sequences generated by TLC simulation of that model and by a seeded generator are executed on the real jsondb with 8 awkward name tables and close start stamps, and after EVERY operation every query answer for every DAG is compared by TLC with the model (HistoryTrace); "
-    "FileCache.tla models the status cache at the grain of LoadLatest's own steps under overlapping queries, appends and manual updates (TLC: no query returns an older status than the file held when it looked, none panics); "
+    "FileCache.tla models the status cache at the grain of LoadLatest's own steps under overlapping queries, appends and manual updates (TLC: no query returns an older status than the file held when it looked, none panics; Apalache: an inductive invariant implying both, for any number of writes and queries); "
     "its simulated behaviours and counter-examples are replayed through the verif gates of the real filecache under the real jsondb and every gate passage and returned status is validated by TLC (FileCacheTrace); "
     "HistoryConc.tla models a query (listing, then one read per file) against the recorder's compaction and the next run's opening; its behaviours are replayed through gates in jsondb and the answer must be one the store would have given at some moment while the query ran (HistoryConcTrace)",
     REC_NOTE + "; status payloads are opaque ids", "TLA+ model of the history store (TLC) + TLC-generated and random operation sequences replayed on the real jsondb, every answer validated against the model by TLC", "hist", "5/C06")
